@@ -737,7 +737,7 @@ type node struct {
 }
 
 // explore: breadth-first over the abstract states reachable by histories; every (state, op) pair becomes a case.
-func explore(tr *hx.Trace, proto string, v3 bool, depth, threads, coqBudget int) {
+func explore(tr *hx.Trace, proto string, v3 bool, depth, threads, twoUntil, coqBudget int) {
 	seen := map[string]bool{"": true}
 	frontier := []node{{}}
 	coqUsed := 0
@@ -747,7 +747,7 @@ func explore(tr *hx.Trace, proto string, v3 bool, depth, threads, coqBudget int)
 
 		for _, nd := range frontier {
 			th := threads
-			if d >= 2 {
+			if d >= twoUntil {
 				th = 1 // second thread only in the first steps (independence), then one thread deep
 			}
 
@@ -870,9 +870,9 @@ func main() {
 		}
 	}
 
-	depth, nRandom, maxLen, budget := 3, 250, 14, 900
+	depth, nRandom, maxLen, budget, twoUntil := 4, 600, 16, 1800, 2
 	if a.Tier == "thorough" {
-		depth, nRandom, maxLen, budget = 4, 3000, 24, 6000
+		depth, nRandom, maxLen, budget, twoUntil = 4, 4000, 24, 8000, 3
 	}
 
 	rng := hx.NewRng(a.Seed)
@@ -883,7 +883,7 @@ func main() {
 				continue
 			}
 
-			explore(tr, p, v3, depth, 2, budget)
+			explore(tr, p, v3, depth, 2, twoUntil, budget)
 
 			r := rng.Fork(uint64(pi*2 + map[bool]int{false: 0, true: 1}[v3]))
 			for i := 0; i < nRandom; i++ {
